@@ -476,7 +476,13 @@ class _Parser(object):
 
     def _handle_project_operator(self, operator, values):
         if operator in _GROUPING_OPERATOR_MAP:
-            values = self.parse(values) if isinstance(values, str) else self.parse_many(values)
+            if isinstance(values, (list, tuple)):
+                values = self.parse_many(values)
+            else:
+                values = self.parse(values)
+                if not isinstance(values, (list, tuple)) and operator not in ('$first', '$last'):
+                    # A single operand that is not an array is the only value to accumulate.
+                    values = [values]
             return _GROUPING_OPERATOR_MAP[operator](values)
         if operator == '$arrayElemAt':
             key, value = values
